@@ -411,9 +411,11 @@ class C19(Prop):
                     f = Failure(what="a segment other than an arc was changed by the approximation", case=case,
                                 observed=after[i] if i < len(after) else None, expected=s)
                     # known finding: fragment beginning with an arc (no move); its close is re-targeted to the end of the
-                    # FIRST CURVE of the chain (the library closes a move-less fragment to its first segment's end)
+                    # FIRST SEGMENT left after the conversion - the first curve of the chain or, when the arc has zero extent
+                    # and vanishes, the segment that followed it (the library closes a move-less fragment to its first
+                    # segment's end)
                     if (case.get("nomove") and before[0][0] == "A" and s[0] == "Z" and i < len(after) and after[i][0] == "Z"
-                            and after[i][1] == s[1] and after[0][0] in "CQ" and after[i][2] == after[0][-1]):
+                            and after[i][1] == s[1] and after[0][0] != "M" and after[i][2] == after[0][-1]):
                         f["finding"] = FINDING_MOVELESS
                         fs.append(f)
                         i += 1
